@@ -335,7 +335,13 @@ class Executor:
             env[ins["name"]] = SliceV(ins["type"], ln, seq, False)
             return
         if op == "MakeChan":
-            env[ins["name"]] = ChanV(ins["type"], z3.Const(fresh_name("chan"), Ref), False)
+            ch = ChanV(ins["type"], z3.Const(fresh_name("chan"), Ref), False)
+            env[ins["name"]] = ch
+            if A and A[0].get("k") == "const":
+                try:
+                    st.ghost[("chancap", str(ch.ref))] = int(A[0].get("v"))
+                except (TypeError, ValueError):
+                    pass
             return
         if op == "Slice":
             env[ins["name"]] = self.do_slice(fr, st, ins)
